@@ -375,17 +375,42 @@ def _str_deref(ex, c):
 def _str_parse(ex, c):
     s = deref(ex, c.args[0])
     ty = c.generics[0] if c.generics else ""
+    if not ty and c.dest_ty:
+        m = re.match(r"^(?:\w+::)*Result<\s*([^,]+),", c.dest_ty)
+        ty = m.group(1) if m else ""
+    if base_type_name(ty) == "IpAddr":
+        if s.ip is not None:
+            return ok(Adt("IpAddr", "V4", [Adt("Ipv4Addr", None, [BV(s.ip)])]))
+        ip = sqlmodel.ip_of_text(s.text)
+        if ip is not None:
+            return ok(Adt("IpAddr", "V4", [Adt("Ipv4Addr", None, [BV(z3.BitVecVal(ip, 32))])]))
+        if ":" in s.text:
+            raise Unsupported("str::parse::<IpAddr> of IPv6 text")
+        return err(Opaque("AddrParseError"))
+    if base_type_name(ty) in INT_TYPES:
+        if s.text is None:
+            raise Unsupported("integer parse of symbolic text")
+        w, sg = INT_TYPES[base_type_name(ty)]
+        if not re.match(r"^[+-]?[0-9]+$", s.text) or (s.text.startswith("-") and not sg):
+            return err(Opaque("ParseIntError"))
+        v = int(s.text)
+        lo, hi = (-(1 << (w - 1)), (1 << (w - 1)) - 1) if sg else (0, (1 << w) - 1)
+        if not lo <= v <= hi:
+            return err(Opaque("ParseIntError"))
+        return ok(bv_const(v, base_type_name(ty)))
     if base_type_name(ty) != "Ipv4Addr":
         raise Unsupported(f"str::parse::<{ty}>")
-    if s.ip is not None:
+    if s.ip is not None and s.plen is None:
         return ok(Adt("Ipv4Addr", None, [BV(s.ip)]))
+    if s.ip is not None:
+        return err(Opaque("AddrParseError"))
     ip = sqlmodel.ip_of_text(s.text)
     if ip is None:
         return err(Opaque("AddrParseError"))
     return ok(Adt("Ipv4Addr", None, [BV(z3.BitVecVal(ip, 32))]))
 
 
-@summary("<&str as Into>::into", "<str as Into>::into", "<str as ToString>::to_string", "<str as ToOwned>::to_owned", "<String as From>::from",
+@summary("<&str as Into>::into", "<String as Into>::into", "<str as Into>::into", "<str as ToString>::to_string", "<str as ToOwned>::to_owned", "<String as From>::from",
          "<String as Clone>::clone", "must_use")
 def _str_id(ex, c):
     return deref(ex, c.args[0])
@@ -530,6 +555,13 @@ def _it_collect(ex, c):
         return Opaque("HashSet", items=[Cell(x) for x in c.args[0].items])
     if base_type_name(ty).startswith("HashSet"):
         return KSet(key_of(ex, x) for x in c.args[0].items)
+    if base_type_name(ty) == "Result" and re.match(r"^(?:\w+::)*Result<\s*(?:\w+::)*Vec<", ty):
+        out = []
+        for x in c.args[0].items:
+            if x.variant == "Err":
+                return x
+            out.append(x.fields[0])
+        return ok(Seq(out))
     if not base_type_name(ty).startswith("Vec"):
         raise Unsupported(f"collect::<{ty}>")
     return Seq(list(c.args[0].items))
@@ -1359,6 +1391,14 @@ def _str_eq(ex, c):
     a, b = deref(ex, c.args[0]), deref(ex, c.args[1])
     if a.text is not None and b.text is not None:
         return Bool(a.text == b.text)
+    if a.ip is not None and b.ip is not None:
+        return Bool(a.ip == b.ip)          # canonical renderings are equal exactly when the addresses are
+    other = a.text if a.text is not None else b.text
+    if other is not None and sqlmodel.ip_of_text(other) is None:
+        return Bool(False)                  # a dotted quad is never equal to text that is not one
+    if other is not None:
+        sym = a.ip if a.ip is not None else b.ip
+        return Bool(sym == z3.BitVecVal(sqlmodel.ip_of_text(other), 32))
     raise Unsupported("string equality on symbolic text")
 
 
@@ -1528,3 +1568,213 @@ def _it_fold(ex, c):
     for x in it.items:
         acc = ex.call_callable(f, [acc, x])
     return acc
+
+
+@summary("Result::and_then")
+def _res_and_then(ex, c):
+    r, f = c.args
+    return r if r.variant == "Err" else ex.call_callable(f, [r.fields[0]])
+
+
+@summary("Option::ok_or_else")
+def _opt_ok_or_else(ex, c):
+    o, f = c.args
+    return ok(o.fields[0]) if o.variant == "Some" else err(ex.call_callable(f, []))
+
+
+@summary("Option::transpose")
+def _opt_transpose(ex, c):
+    o = c.args[0]
+    if o.variant == "None":
+        return ok(NONE())
+    r = o.fields[0]
+    return ok(some(r.fields[0])) if r.variant == "Ok" else r
+
+
+@summary("Option::flatten")
+def _opt_flatten(ex, c):
+    o = c.args[0]
+    return NONE() if o.variant == "None" else o.fields[0]
+
+
+@summary("Option::take")
+def _opt_take(ex, c):
+    r = c.args[0]
+    old = deref(ex, r)
+    base = r
+    while isinstance(ex.load(base), Ref):
+        base = ex.load(base)
+    ex.store(base, NONE())
+    return old
+
+
+@summary("Option::get_or_insert_with")
+def _opt_goiw(ex, c):
+    r, f = c.args
+    base = r
+    while isinstance(ex.load(base), Ref):
+        base = ex.load(base)
+    cur = ex.load(base)
+    if cur.variant == "None":
+        ex.store(base, some(ex.call_callable(f, [])))
+    return Ref(base.cell, base.path + (0,), mut=True)
+
+
+@summary("<Duration as PartialOrd>::lt")
+def _dur_lt(ex, c):
+    a, b = deref(ex, c.args[0]), deref(ex, c.args[1])
+    return Bool(z3.Not(dur_le(b, a)))
+
+
+@summary("<Duration as PartialOrd>::ge")
+def _dur_ge(ex, c):
+    a, b = deref(ex, c.args[0]), deref(ex, c.args[1])
+    return Bool(dur_le(b, a))
+
+
+def _dur_mul(ex, d, n):
+    """Duration * u32 (std: checked_mul(..).expect("overflow when multiplying duration by scalar"))"""
+    secs, nanos = d.fields[0].t, d.fields[1].t
+    n64 = z3.ZeroExt(32, n.t)
+    total_nanos = z3.ZeroExt(32, nanos) * n64                     # < 10^9 * 2^32 < 2^62
+    extra = z3.UDiv(total_nanos, z3.BitVecVal(NANOS, 64))
+    rem = z3.Extract(31, 0, z3.URem(total_nanos, z3.BitVecVal(NANOS, 64)))
+    ovf = z3.Or(z3.Not(z3.BVMulNoOverflow(secs, n64, False)), z3.Not(z3.BVAddNoOverflow(secs * n64, extra, False)))
+    if ex.branch(ovf):
+        raise Panic("overflow when multiplying duration by scalar")
+    return duration(secs * n64 + extra, rem)
+
+
+@summary("<u32 as Mul>::mul")
+def _u32_mul_dur(ex, c):
+    a, b = c.args
+    if isinstance(b, Adt) and b.ty == "Duration":
+        return _dur_mul(ex, b, a)
+    raise Unsupported("u32 * non-Duration through the Mul trait")
+
+
+@summary("<Duration as Mul>::mul")
+def _dur_mul_u32(ex, c):
+    return _dur_mul(ex, c.args[0], c.args[1])
+
+
+@summary("<Duration as Div>::div")
+def _dur_div(ex, c):
+    d, n = c.args
+    secs, nanos = d.fields[0].t, d.fields[1].t
+    if ex.branch(n.t == 0):
+        raise Panic("divide by zero error when dividing duration by scalar")
+    n64 = z3.ZeroExt(32, n.t)
+    q = z3.UDiv(secs, n64)
+    carry = z3.URem(secs, n64)                                    # < 2^32
+    extra_nanos = z3.UDiv(carry * z3.BitVecVal(NANOS, 64) + z3.ZeroExt(32, nanos), n64)   # (carry*1e9 + nanos)/n < 1e9 ... fits
+    return duration(q, z3.Extract(31, 0, extra_nanos))
+
+
+def _int_try_from(target):
+    tw, tsigned = INT_TYPES[target]
+
+    def f(ex, c):
+        v = c.args[0]
+        if not isinstance(v, BV):
+            raise Unsupported(f"{target}::try_from on {v!r}")
+        w = v.width
+        # value of v as a mathematical integer must lie in the target's range
+        wide = max(w, tw) + 1
+        x = z3.SignExt(wide - w, v.t) if v.signed else z3.ZeroExt(wide - w, v.t)
+        lo = -(1 << (tw - 1)) if tsigned else 0
+        hi = (1 << (tw - 1)) - 1 if tsigned else (1 << tw) - 1
+        fits = z3.And(x >= z3.BitVecVal(lo, wide), x <= z3.BitVecVal(hi, wide))
+        if ex.branch(fits):
+            return ok(BV(z3.Extract(tw - 1, 0, x), tsigned))
+        return err(Opaque("TryFromIntError"))
+    return f
+
+
+for _t in INT_TYPES:
+    S[f"<{_t} as TryFrom>::try_from"] = _int_try_from(_t)
+
+
+@summary("Vec::drain")
+def _vec_drain(ex, c):
+    r, rng = c.args
+    if not (isinstance(rng, Adt) and rng.ty == "RangeFull"):
+        raise Unsupported("Vec::drain of a sub-range")
+    base = r
+    while isinstance(ex.load(base), Ref):
+        base = ex.load(base)
+    seq = ex.load(base)
+    ex.store(base, Seq([]))
+    return Opaque("Iter", items=list(seq.items))
+
+
+@summary("Vec::shrink_to_fit", "Vec::reserve", "Vec::shrink_to")
+def _vec_noop(ex, c):
+    return UNIT
+
+
+@summary("core::str::starts_with")
+def _str_starts_with(ex, c):
+    a, b = deref(ex, c.args[0]), deref(ex, c.args[1])
+    if a.text is None or b.text is None:
+        raise Unsupported("starts_with on symbolic text")
+    return Bool(a.text.startswith(b.text))
+
+
+@summary("<str as Index>::index")
+def _str_index(ex, c):
+    s_, idx = deref(ex, c.args[0]), c.args[1]
+    if s_.text is None or not isinstance(idx, Adt):
+        raise Unsupported("str indexing on symbolic text")
+    vals = [z3.simplify(f.t) for f in idx.fields]
+    if not all(z3.is_bv_value(v) for v in vals):
+        raise Unsupported("str indexing with a symbolic range")
+    vals = [v.as_long() for v in vals]
+    kind = base_type_name(idx.ty)
+    raw = s_.text.encode()
+    a, b = {"RangeFrom": (vals[0], len(raw)), "RangeTo": (0, vals[0]), "Range": (vals[0], vals[-1])}.get(kind, (None, None))
+    if a is None:
+        raise Unsupported(f"str index by {kind}")
+    if a > b or b > len(raw):
+        raise Panic("byte index out of range of str")
+    return Str(text=raw[a:b].decode())
+
+
+@summary("RangeInclusive::new", "std::ops::RangeInclusive::new", "core::ops::RangeInclusive::new")
+def _ri_new(ex, c):
+    return Adt("RangeInclusive", None, [c.args[0], c.args[1], Bool(False)])
+
+
+@summary("<RangeInclusive as Iterator>::next")
+def _ri_next(ex, c):
+    r = c.args[0]
+    base = r
+    while isinstance(ex.load(base), Ref):
+        base = ex.load(base)
+    rng = ex.load(base)
+    start, end = rng.fields[0], rng.fields[1]
+    exhausted = rng.fields[2] if len(rng.fields) > 2 else Bool(False)
+    if ex.branch(exhausted.t):
+        return NONE()
+    lt = z3.ULT(start.t, end.t) if not start.signed else (start.t < end.t)
+    if ex.branch(lt):
+        ex.store(base, Adt("RangeInclusive", None, [BV(start.t + 1, start.signed), end, Bool(False)]))
+        return some(start)
+    if ex.branch(start.t == end.t):
+        ex.store(base, Adt("RangeInclusive", None, [start, end, Bool(True)]))
+        return some(start)
+    return NONE()
+
+
+@summary("core::str::split")
+def _str_split(ex, c):
+    s_, pat = deref(ex, c.args[0]), c.args[1]
+    pv = z3.simplify(pat.t) if isinstance(pat, BV) else None
+    if pv is None or not z3.is_bv_value(pv):
+        raise Unsupported("str::split with a non-char pattern")
+    ch = chr(pv.as_long())
+    if s_.text is not None:
+        return Opaque("Iter", items=[Str(text=x) for x in s_.text.split(ch)])
+    if s_.ip is not None and ch == "/":
+        return Opaque("Iter", items=[Str(ip=s_.ip)] + ([Str(text=str(s_.plen))] if s_.plen is not None else []))
+    raise Unsupported("str::split on symbolic text")
